@@ -154,6 +154,44 @@ pub fn render(toks: &[Value], style: u64, rng: &mut StdRng) -> String {
         }
         sp = out;
     }
+    // redundant parentheses around a name that stands where an operand is expected (right after a prefix or
+    // infix operator), and a second pair around a group that stands there
+    if style >= 3 {
+        const OPS: &[&str] = &["!", "-", "+", "*", "/", "%", "<", "<=", ">", ">=", "==", "!=", "&&", "||", "="];
+        const WORDS: &[&str] = &["als", "anders", "zolang", "functie", "stel", "antwoord", "stop", "volgende", "ja", "nee"];
+        let mut out: Vec<String> = Vec::new();
+        let mut close_at: Vec<usize> = Vec::new(); // positions (in sp) of ")" to double
+        let mut depth_open: Vec<(usize, bool)> = Vec::new();
+        for (j, t) in sp.iter().enumerate() {
+            let prev = if j > 0 { sp[j - 1].as_str() } else { "" };
+            let after_op = OPS.contains(&prev);
+            let is_name = t.chars().next().map(|c| c.is_alphabetic() || c == '_').unwrap_or(false) && !WORDS.contains(&t.as_str());
+            let next = sp.get(j + 1).map(|s| s.as_str()).unwrap_or("");
+            if t == "(" {
+                let double = after_op && rng.gen_bool(0.35);
+                depth_open.push((j, double));
+                if double {
+                    out.push("(".into());
+                }
+                out.push(t.clone());
+            } else if t == ")" {
+                out.push(t.clone());
+                if let Some((_, double)) = depth_open.pop() {
+                    if double {
+                        out.push(")".into());
+                    }
+                }
+            } else if is_name && after_op && next != "(" && next != "[" && next != "=" && rng.gen_bool(0.35) {
+                out.push("(".into());
+                out.push(t.clone());
+                out.push(")".into());
+            } else {
+                out.push(t.clone());
+            }
+        }
+        let _ = &mut close_at;
+        sp = out;
+    }
     let mut s = String::new();
     for (j, t) in sp.iter().enumerate() {
         if j > 0 {
